@@ -1,22 +1,736 @@
+// Runner for C40: who is handed which DRKey. Drives the real request validators
+// of control/drkey/grpc (through export_verif.go) and the exported gRPC Server
+// methods with a synthetic peer.Context (TCP address, TLS info with generated
+// client certificates, certificate verifier reading the ISD-AS from the
+// certificate subject, recording engine).
 package main
 
 import (
+	"context"
+	"crypto/ecdsa"
+	"crypto/elliptic"
+	"crypto/rand"
+	"crypto/tls"
+	"crypto/x509"
+	"crypto/x509/pkix"
+	"errors"
 	"fmt"
+	"math/big"
 	"net"
+	"net/netip"
+	"sort"
+	"strings"
+	"time"
 
+	"google.golang.org/grpc/credentials"
+	"google.golang.org/grpc/peer"
+	"google.golang.org/protobuf/types/known/timestamppb"
+
+	"github.com/scionproto/scion/control/config"
 	dkgrpc "github.com/scionproto/scion/control/drkey/grpc"
+	"github.com/scionproto/scion/pkg/addr"
 	"github.com/scionproto/scion/pkg/drkey"
+	cppb "github.com/scionproto/scion/pkg/proto/control_plane"
+	drkeypb "github.com/scionproto/scion/pkg/proto/drkey"
+	"github.com/scionproto/scion/pkg/scrypto/cppki"
+	"verifharness/internal/vgen"
 )
 
+// ---------------------------------------------------------------- pools
+
+var ias = []addr.IA{
+	addr.MustParseIA("1-ff00:0:110"), addr.MustParseIA("1-ff00:0:111"),
+	addr.MustParseIA("2-ff00:0:210"),
+}
+
+// hosts of the pool, as canonical address bytes
+var hostPool = [][]byte{
+	{10, 1, 2, 3}, {10, 1, 2, 4}, {127, 0, 0, 1},
+	net.ParseIP("2001:db8::1"), net.ParseIP("2001:db8::2"), net.ParseIP("::1"),
+}
+
+func mapped(b []byte) []byte {
+	return append([]byte{0, 0, 0, 0, 0, 0, 0, 0, 0, 0, 0xff, 0xff}, b...)
+}
+
+// ---- requester
+
+type peerSpec struct {
+	Kind int    // 0 absent, 1 not TCP, 2 TCP
+	IP   []byte // TCP only
+	Zone string
+}
+
+func (p peerSpec) addr() net.Addr {
+	switch p.Kind {
+	case 1:
+		return &net.UDPAddr{IP: net.IP(p.IP), Port: 12345}
+	case 2:
+		return &net.TCPAddr{IP: net.IP(p.IP), Port: 12345, Zone: p.Zone}
+	}
+	return nil
+}
+
+func (p peerSpec) term() string {
+	switch p.Kind {
+	case 0:
+		return "DRKeyACL.PAbsent"
+	case 1:
+		return "DRKeyACL.PNotTCP"
+	}
+	return vgen.App("DRKeyACL.PTCP", vgen.Bytes(p.IP))
+}
+
+func (p peerSpec) String() string {
+	switch p.Kind {
+	case 0:
+		return "absent"
+	case 1:
+		return "udp:" + net.IP(p.IP).String()
+	}
+	return fmt.Sprintf("tcp:%x", p.IP)
+}
+
+// peerForms lists the ways host h can show up as the requester address.
+func peerForms(h []byte) []peerSpec {
+	if len(h) == 4 {
+		return []peerSpec{{Kind: 2, IP: h}, {Kind: 2, IP: mapped(h)}}
+	}
+	return []peerSpec{{Kind: 2, IP: h}, {Kind: 2, IP: h, Zone: "eth0"}}
+}
+
+func genPeer(r *vgen.Rand, legit []byte) peerSpec {
+	switch x := r.Intn(20); {
+	case x < 12 && legit != nil:
+		return vgen.Pick(r, peerForms(legit)...)
+	case x < 16:
+		return vgen.Pick(r, peerForms(vgen.Pick(r, hostPool...))...)
+	case x == 16:
+		return peerSpec{Kind: 0}
+	case x == 17:
+		return peerSpec{Kind: 1, IP: vgen.Pick(r, hostPool...)}
+	case x == 18:
+		return peerSpec{Kind: 2, IP: nil}
+	default:
+		return peerSpec{Kind: 2, IP: r.Bytes(vgen.Pick(r, 1, 3, 5, 15, 17))}
+	}
+}
+
+// ---- named hosts (strings)
+
+func hostStrings(h []byte) []string {
+	if len(h) == 4 {
+		a := netip.AddrFrom4([4]byte(h))
+		return []string{a.String(), "::ffff:" + a.String(),
+			fmt.Sprintf("::ffff:%02x%02x:%02x%02x", h[0], h[1], h[2], h[3]),
+			fmt.Sprintf("0:0:0:0:0:ffff:%x:%x", int(h[0])<<8|int(h[1]), int(h[2])<<8|int(h[3]))}
+	}
+	a := netip.AddrFrom16([16]byte(h))
+	return []string{a.String(), a.StringExpanded(), strings.ToUpper(a.String())}
+}
+
+var junkHosts = []string{"", "CS", "DS_M", "Wildcard", "localhost", "10.1.2", "10.1.2.3.4",
+	" 10.1.2.3", "10.1.2.03", "fe80::1%eth0", "2001:db8::1%x", "::ffff:10.1.2.3%z", "1.2.3.4/32"}
+
+func genHostString(r *vgen.Rand, legit []byte) string {
+	switch x := r.Intn(10); {
+	case x < 6 && legit != nil:
+		return vgen.Pick(r, hostStrings(legit)...)
+	case x < 9:
+		return vgen.Pick(r, hostStrings(vgen.Pick(r, hostPool...))...)
+	default:
+		return vgen.Pick(r, junkHosts...)
+	}
+}
+
+// parsed is what the model receives for a named host.
+func parsed(s string) string { return vgen.Bytes(net.ParseIP(s)) }
+
+// ---- protocols
+
+var pbProtos = []int32{0, 1, 2, 7, 200, 65535, 65536, 65537, 131072, -1, -65536, -65535,
+	2147483647, -2147483648, 1 << 30}
+
+func genProto(r *vgen.Rand) int32 {
+	switch x := r.Intn(10); {
+	case x < 4:
+		return 1
+	case x < 6:
+		return vgen.Pick(r, int32(2), int32(7), int32(200))
+	case x < 7:
+		return 0
+	default:
+		return vgen.Pick(r, pbProtos...)
+	}
+}
+
+func zterm(v int64) string { return fmt.Sprintf("(%d)%%Z", v) }
+
+// ---- allowed (host, protocol) set
+
+type allowedEntry struct {
+	Host  netip.Addr
+	Proto drkey.Protocol
+}
+
+func naddrTerm(a netip.Addr) string {
+	if a.Is4() {
+		b := a.As4()
+		return vgen.App("DRKeyACL.NA4", vgen.Bytes(b[:]))
+	}
+	b := a.As16()
+	return vgen.App("DRKeyACL.NA6", vgen.Bytes(b[:]), vgen.Str(a.Zone()))
+}
+
+func allowedTerm(es []allowedEntry) string {
+	return vgen.ListOf(es, func(e allowedEntry) string {
+		return vgen.Pair(naddrTerm(e.Host), vgen.N(uint64(e.Proto)))
+	})
+}
+
+func allowedMap(es []allowedEntry) map[config.HostProto]struct{} {
+	m := map[config.HostProto]struct{}{}
+	for _, e := range es {
+		m[config.HostProto{Host: e.Host, Proto: e.Proto}] = struct{}{}
+	}
+	return m
+}
+
+func genAllowed(r *vgen.Rand, legit []byte, proto drkey.Protocol) []allowedEntry {
+	var es []allowedEntry
+	n := r.Intn(4)
+	for i := 0; i < n; i++ {
+		h := vgen.Pick(r, hostPool...)
+		a, _ := netip.AddrFromSlice(h)
+		switch r.Intn(6) {
+		case 0:
+			if a.Is4() { // as configured "::ffff:a.b.c.d": never matches
+				a = netip.AddrFrom16(a.As16())
+			}
+		case 1:
+			if a.Is6() {
+				a = a.WithZone("eth0")
+			}
+		}
+		es = append(es, allowedEntry{a, drkey.Protocol(vgen.Pick(r, 0, 1, 1, 2, 7))})
+	}
+	if legit != nil && r.Chance(3, 4) {
+		a, _ := netip.AddrFromSlice(legit)
+		p := proto
+		if r.Chance(1, 6) {
+			p = drkey.Protocol(vgen.Pick(r, 0, 1, 2, 7))
+		}
+		es = append(es, allowedEntry{a, p})
+	}
+	sort.Slice(es, func(i, j int) bool {
+		if c := es[i].Host.Compare(es[j].Host); c != 0 {
+			return c < 0
+		}
+		return es[i].Proto < es[j].Proto
+	})
+	return es
+}
+
+// ---- certificates
+
+type authSpec struct {
+	Kind  int // 0 none, 1 not TLS, 2 TLS
+	Chain []*x509.Certificate
+	// model view
+	Verified *addr.IA
+}
+
+type otherAuth struct{}
+
+func (otherAuth) AuthType() string { return "other" }
+
+func (a authSpec) info() credentials.AuthInfo {
+	switch a.Kind {
+	case 1:
+		return otherAuth{}
+	case 2:
+		return credentials.TLSInfo{State: tls.ConnectionState{PeerCertificates: a.Chain}}
+	}
+	return nil
+}
+
+func (a authSpec) term() string {
+	switch a.Kind {
+	case 0:
+		return "DRKeyACL.ANone"
+	case 1:
+		return "DRKeyACL.ANotTLS"
+	}
+	v := "None"
+	if a.Verified != nil {
+		v = vgen.Opt(vgen.N(uint64(*a.Verified)), true)
+	}
+	return vgen.App("DRKeyACL.ATLS", fmt.Sprintf("%d%%nat", len(a.Chain)), v)
+}
+
+// subjectVerifier stands in for trust.TLSCryptoVerifier: the ISD-AS is read from
+// the leaf certificate's subject (cppki.ExtractIA, as the real verifier does); a
+// certificate whose common name is "untrusted" does not verify.
+type subjectVerifier struct{}
+
+func (subjectVerifier) VerifyParsedClientCertificate(chain []*x509.Certificate) (addr.IA, error) {
+	if len(chain) == 0 {
+		return 0, errors.New("empty chain")
+	}
+	if chain[0].Subject.CommonName == "untrusted" {
+		return 0, errors.New("certificate does not verify")
+	}
+	return cppki.ExtractIA(chain[0].Subject)
+}
+
+func mkCert(cn string, ia *addr.IA) *x509.Certificate {
+	key, err := ecdsa.GenerateKey(elliptic.P256(), rand.Reader)
+	must(err)
+	subj := pkix.Name{CommonName: cn}
+	if ia != nil {
+		subj.ExtraNames = []pkix.AttributeTypeAndValue{{Type: cppki.OIDNameIA, Value: ia.String()}}
+	}
+	tmpl := &x509.Certificate{
+		SerialNumber: big.NewInt(1), Subject: subj,
+		NotBefore: time.Unix(1700000000, 0), NotAfter: time.Unix(1900000000, 0),
+		KeyUsage: x509.KeyUsageDigitalSignature, ExtKeyUsage: []x509.ExtKeyUsage{x509.ExtKeyUsageClientAuth},
+	}
+	der, err := x509.CreateCertificate(rand.Reader, tmpl, tmpl, &key.PublicKey, key)
+	must(err)
+	c, err := x509.ParseCertificate(der)
+	must(err)
+	return c
+}
+
+var (
+	goodCerts  []*x509.Certificate // one per ias entry
+	badCerts   []*x509.Certificate // untrusted, one per ias entry
+	noIACert   *x509.Certificate
+	caLikeCert *x509.Certificate
+)
+
+func initCerts() {
+	for i := range ias {
+		ia := ias[i]
+		goodCerts = append(goodCerts, mkCert("as "+ia.String(), &ia))
+		badCerts = append(badCerts, mkCert("untrusted", &ia))
+	}
+	noIACert = mkCert("no ia", nil)
+	caLikeCert = mkCert("ca", &ias[2])
+}
+
+func genAuth(r *vgen.Rand) authSpec {
+	switch x := r.Intn(12); {
+	case x < 7:
+		i := r.Intn(len(ias))
+		ia := ias[i]
+		chain := []*x509.Certificate{goodCerts[i]}
+		if r.Bool() {
+			chain = append(chain, caLikeCert)
+		}
+		return authSpec{Kind: 2, Chain: chain, Verified: &ia}
+	case x < 8:
+		return authSpec{Kind: 2, Chain: []*x509.Certificate{badCerts[r.Intn(len(ias))], caLikeCert}}
+	case x < 9:
+		return authSpec{Kind: 2, Chain: []*x509.Certificate{noIACert}}
+	case x < 10:
+		return authSpec{Kind: 2}
+	case x < 11:
+		return authSpec{Kind: 1}
+	default:
+		return authSpec{Kind: 0}
+	}
+}
+
+// ---- recording engine
+
+type callRec struct {
+	Kind            int // 1 DeriveLevel1, 2 GetLevel1Key, 3 ASHost, 4 HostAS, 5 HostHost, 6 SV
+	Proto           uint16
+	Src, Dst        addr.IA
+	SrcHost, DstHst string
+}
+
+type recEngine struct{ calls []callRec }
+
+var engineKey = drkey.Key{1, 2, 3, 4, 5, 6, 7, 8, 9, 10, 11, 12, 13, 14, 15, 16}
+
+func (e *recEngine) GetSecretValue(_ context.Context, m drkey.SecretValueMeta) (drkey.SecretValue, error) {
+	e.calls = append(e.calls, callRec{Kind: 6, Proto: uint16(m.ProtoId)})
+	return drkey.SecretValue{Key: engineKey}, nil
+}
+func (e *recEngine) GetLevel1Key(_ context.Context, m drkey.Level1Meta) (drkey.Level1Key, error) {
+	e.calls = append(e.calls, callRec{Kind: 2, Proto: uint16(m.ProtoId), Src: m.SrcIA, Dst: m.DstIA})
+	return drkey.Level1Key{Key: engineKey}, nil
+}
+func (e *recEngine) DeriveLevel1(_ context.Context, m drkey.Level1Meta) (drkey.Level1Key, error) {
+	e.calls = append(e.calls, callRec{Kind: 1, Proto: uint16(m.ProtoId), Src: m.SrcIA, Dst: m.DstIA})
+	return drkey.Level1Key{Key: engineKey}, nil
+}
+func (e *recEngine) DeriveASHost(_ context.Context, m drkey.ASHostMeta) (drkey.ASHostKey, error) {
+	e.calls = append(e.calls, callRec{Kind: 3, Proto: uint16(m.ProtoId), Src: m.SrcIA, Dst: m.DstIA,
+		DstHst: m.DstHost})
+	return drkey.ASHostKey{Key: engineKey}, nil
+}
+func (e *recEngine) DeriveHostAS(_ context.Context, m drkey.HostASMeta) (drkey.HostASKey, error) {
+	e.calls = append(e.calls, callRec{Kind: 4, Proto: uint16(m.ProtoId), Src: m.SrcIA, Dst: m.DstIA,
+		SrcHost: m.SrcHost})
+	return drkey.HostASKey{Key: engineKey}, nil
+}
+func (e *recEngine) DeriveHostHost(_ context.Context, m drkey.HostHostMeta) (drkey.HostHostKey, error) {
+	e.calls = append(e.calls, callRec{Kind: 5, Proto: uint16(m.ProtoId), Src: m.SrcIA, Dst: m.DstIA,
+		SrcHost: m.SrcHost, DstHst: m.DstHost})
+	return drkey.HostHostKey{Key: engineKey}, nil
+}
+
+func (c callRec) term() string {
+	p, s, d := vgen.N(uint64(c.Proto)), vgen.N(uint64(c.Src)), vgen.N(uint64(c.Dst))
+	switch c.Kind {
+	case 1:
+		return vgen.App("DRKeyACL.CallDeriveLvl1", p, s, d)
+	case 2:
+		return vgen.App("DRKeyACL.CallGetLvl1", p, s, d)
+	case 3:
+		return vgen.App("DRKeyACL.CallASHost", p, s, d)
+	case 4:
+		return vgen.App("DRKeyACL.CallHostAS", p, s, d)
+	case 5:
+		return vgen.App("DRKeyACL.CallHostHost", p, s, d)
+	}
+	return vgen.App("DRKeyACL.CallSV", p)
+}
+
+// ---- requests
+
+type reqSpec struct {
+	Proto            int32
+	TS               int // 0 valid, 1 nil, 2 out of range
+	Src, Dst         addr.IA
+	SrcHost, DstHost string
+}
+
+func (q reqSpec) ts() *timestamppb.Timestamp {
+	switch q.TS {
+	case 1:
+		return nil
+	case 2:
+		return &timestamppb.Timestamp{Seconds: 1 << 60}
+	case 3:
+		return &timestamppb.Timestamp{Seconds: 1700000000, Nanos: -5}
+	}
+	return timestamppb.New(time.Unix(1700000000, 0))
+}
+
+func (q reqSpec) term() string {
+	return vgen.App("DRKeyACL.mkReq", zterm(int64(q.Proto)), vgen.B(q.TS == 0),
+		vgen.N(uint64(q.Src)), vgen.N(uint64(q.Dst)), parsed(q.SrcHost), parsed(q.DstHost))
+}
+
+var epNames = []string{"ELvl1", "EIntra", "EASHost", "EHostAS", "EHostHost", "ESV"}
+
+// serve runs one request against a real Server and returns the engine call made
+// for a successful response (nil = refused).
+func serve(ep int, local addr.IA, allowed []allowedEntry, p peerSpec, a authSpec, q reqSpec) (
+	*callRec, string) {
+
+	eng := &recEngine{}
+	srv := &dkgrpc.Server{LocalIA: local, ClientCertificateVerifier: subjectVerifier{}, Engine: eng,
+		AllowedSVHostProto: allowedMap(allowed)}
+	ctx := context.Background()
+	if p.Kind != 0 {
+		ctx = peer.NewContext(ctx, &peer.Peer{Addr: p.addr(), AuthInfo: a.info()})
+	}
+	var err error
+	var key []byte
+	pid := drkeypb.Protocol(q.Proto)
+	switch ep {
+	case 0:
+		var r *cppb.DRKeyLevel1Response
+		r, err = srv.DRKeyLevel1(ctx, &cppb.DRKeyLevel1Request{ValTime: q.ts(), ProtocolId: pid})
+		key = r.GetKey()
+	case 1:
+		var r *cppb.DRKeyIntraLevel1Response
+		r, err = srv.DRKeyIntraLevel1(ctx, &cppb.DRKeyIntraLevel1Request{ValTime: q.ts(),
+			ProtocolId: pid, SrcIa: uint64(q.Src), DstIa: uint64(q.Dst)})
+		key = r.GetKey()
+	case 2:
+		var r *cppb.DRKeyASHostResponse
+		r, err = srv.DRKeyASHost(ctx, &cppb.DRKeyASHostRequest{ValTime: q.ts(), ProtocolId: pid,
+			SrcIa: uint64(q.Src), DstIa: uint64(q.Dst), DstHost: q.DstHost})
+		key = r.GetKey()
+	case 3:
+		var r *cppb.DRKeyHostASResponse
+		r, err = srv.DRKeyHostAS(ctx, &cppb.DRKeyHostASRequest{ValTime: q.ts(), ProtocolId: pid,
+			SrcIa: uint64(q.Src), DstIa: uint64(q.Dst), SrcHost: q.SrcHost})
+		key = r.GetKey()
+	case 4:
+		var r *cppb.DRKeyHostHostResponse
+		r, err = srv.DRKeyHostHost(ctx, &cppb.DRKeyHostHostRequest{ValTime: q.ts(), ProtocolId: pid,
+			SrcIa: uint64(q.Src), DstIa: uint64(q.Dst), SrcHost: q.SrcHost, DstHost: q.DstHost})
+		key = r.GetKey()
+	case 5:
+		var r *cppb.DRKeySecretValueResponse
+		r, err = srv.DRKeySecretValue(ctx, &cppb.DRKeySecretValueRequest{ValTime: q.ts(), ProtocolId: pid})
+		key = r.GetKey()
+	}
+	if err != nil {
+		if len(eng.calls) != 0 {
+			return nil, "engine called although the request was refused"
+		}
+		return nil, ""
+	}
+	if len(eng.calls) != 1 {
+		return nil, fmt.Sprintf("response without exactly one engine call (%d)", len(eng.calls))
+	}
+	c := eng.calls[0]
+	if string(key) != string(engineKey[:]) {
+		return &c, "response does not carry the engine's key"
+	}
+	// the hosts must be handed to the engine as named in the request
+	switch c.Kind {
+	case 3:
+		if c.DstHst != q.DstHost {
+			return &c, "engine asked for another host than the one named"
+		}
+	case 4:
+		if c.SrcHost != q.SrcHost {
+			return &c, "engine asked for another host than the one named"
+		}
+	case 5:
+		if c.SrcHost != q.SrcHost || c.DstHst != q.DstHost {
+			return &c, "engine asked for another host than the one named"
+		}
+	}
+	return &c, ""
+}
+
+func must(err error) {
+	if err != nil {
+		panic(err)
+	}
+}
+
+// ---------------------------------------------------------------- main
+
 func main() {
-	m := drkey.ASHostMeta{ProtoId: 1, SrcIA: 5, DstIA: 7, DstHost: "CS"}
-	fmt.Println(dkgrpc.VerifValidateASHostReq(m, 7, &net.TCPAddr{}))
-	fmt.Println(dkgrpc.VerifValidateASHostReq(m, 7, &net.TCPAddr{IP: net.IP{1, 2, 3, 4}}))
-	m.DstHost = "::ffff:1.2.3.4"
-	fmt.Println(dkgrpc.VerifValidateASHostReq(m, 7, &net.TCPAddr{IP: net.IP{1, 2, 3, 4}}))
-	m.DstHost = "1.2.3.4"
-	fmt.Println(dkgrpc.VerifValidateASHostReq(m, 7, &net.TCPAddr{IP: net.ParseIP("1.2.3.4"), Zone: "x"}))
-	fmt.Println(dkgrpc.VerifValidateASHostReq(m, 7, &net.TCPAddr{IP: net.IP{1, 2, 3}}))
-	m.DstHost = "fe80::1%eth0"
-	fmt.Println(dkgrpc.VerifValidateASHostReq(m, 7, &net.TCPAddr{IP: net.ParseIP("fe80::1"), Zone: "eth0"}))
+	run := vgen.Flags("C40")
+	run.Imports = []string{"Model.DRKeyACL"}
+	run.CheckFn = "DRKeyACL.check"
+	run.DiagFn = "DRKeyACL.diag"
+	run.CaseType = "DRKeyACL.case"
+	run.Rule = "predefined protocols: all 2^16 ids (exhaustive); validators: full product of kind x " +
+		"protocol x local-AS position x requester form (IPv4, IPv4-in-IPv6, IPv6, other host, nil, " +
+		"non-TCP) x named-host spelling (exhaustive) + random (incl. odd-length IPs, junk host strings); allowed-host sets; " +
+		"certificate outcomes; the six Server methods with mostly legitimate requests and single-field " +
+		"deviations; non-trivial = the request reached the address/AS/allowed-set decision " +
+		"(requester present with TCP address, valid timestamp, protocol not generic where that is checked first)"
+	rng := vgen.NewRand(run.Seed)
+	initCerts()
+
+	// 1. predefined protocol identifiers (finite domain)
+	if run.Want() {
+		var pre []uint64
+		for p := 0; p < 65536; p++ {
+			if drkey.Protocol(p).IsPredefined() {
+				pre = append(pre, uint64(p))
+			}
+		}
+		run.Add("predefined", vgen.App("DRKeyACL.CPredef", vgen.NList(pre)), "predef", true,
+			map[string]any{"predefined": pre})
+	} else {
+		run.Skip()
+	}
+
+	// 2. validators, exhaustive product around the local AS
+	L, O, O2 := ias[0], ias[1], ias[2]
+	type iaPos struct{ src, dst addr.IA }
+	positions := []iaPos{{O, L}, {L, O}, {L, L}, {O, O2}}
+	h1, h2, h6 := hostPool[0], hostPool[1], hostPool[3]
+	peers := []peerSpec{{Kind: 2, IP: h1}, {Kind: 2, IP: mapped(h1)}, {Kind: 2, IP: h2},
+		{Kind: 2, IP: h6}, {Kind: 2, IP: nil}, {Kind: 1, IP: h1}}
+	named := []string{"10.1.2.3", "::ffff:10.1.2.3", "10.1.2.4", "", "2001:db8::1", "CS"}
+	validateOne := func(kind int, proto uint16, pos iaPos, local addr.IA, p peerSpec, sh, dh string) {
+		if !run.Want() {
+			run.Skip()
+			return
+		}
+		var err error
+		pa := p.addr()
+		panicked, msg := vgen.Recover(func() {
+			switch kind {
+			case 1:
+				err = dkgrpc.VerifValidateASHostReq(drkey.ASHostMeta{ProtoId: drkey.Protocol(proto),
+					SrcIA: pos.src, DstIA: pos.dst, DstHost: dh}, local, pa)
+			case 2:
+				err = dkgrpc.VerifValidateHostASReq(drkey.HostASMeta{ProtoId: drkey.Protocol(proto),
+					SrcIA: pos.src, DstIA: pos.dst, SrcHost: sh}, local, pa)
+			default:
+				err = dkgrpc.VerifValidateHostHostReq(drkey.HostHostMeta{ProtoId: drkey.Protocol(proto),
+					SrcIA: pos.src, DstIA: pos.dst, SrcHost: sh, DstHost: dh}, local, pa)
+			}
+		})
+		desc := map[string]any{"kind": kind, "proto": proto, "src": pos.src.String(),
+			"dst": pos.dst.String(), "src_host": sh, "dst_host": dh, "local": local.String(),
+			"peer": p.String(), "accepted": err == nil}
+		if panicked {
+			run.Violate(run.Add("validate", "DRKeyACL.CPredef []", "", false, desc), "panic: "+msg, desc)
+			return
+		}
+		run.Tally(fmt.Sprintf("validate:kind%d-accepted:%v", kind, err == nil))
+		run.Add("validate", vgen.App("DRKeyACL.CValidate", vgen.N(uint64(kind)), vgen.N(uint64(proto)),
+			vgen.N(uint64(pos.src)), vgen.N(uint64(pos.dst)), parsed(sh), parsed(dh),
+			vgen.N(uint64(local)), p.term(), vgen.B(err == nil)),
+			fmt.Sprint(kind, proto, pos, local, p, sh, dh), proto != 0 && p.Kind == 2, desc)
+	}
+	for _, proto := range []uint16{0, 1, 7} {
+		for _, pos := range positions {
+			for _, p := range peers {
+				if proto == 0 { // refused before anything else is looked at
+					validateOne(1, proto, pos, L, p, "", named[0])
+					validateOne(2, proto, pos, L, p, named[0], "")
+					validateOne(3, proto, pos, L, p, named[0], named[0])
+					continue
+				}
+				for _, h := range named {
+					validateOne(1, proto, pos, L, p, "", h)
+					validateOne(2, proto, pos, L, p, h, "")
+				}
+				for _, sh := range named[:4] {
+					for _, dh := range named[:4] {
+						validateOne(3, proto, pos, L, p, sh, dh)
+					}
+				}
+			}
+		}
+	}
+	// 2b. validators, random
+	nv := run.Count(300, 40000)
+	for i := 0; i < nv; i++ {
+		r := rng.Fork(uint64(100000 + i))
+		kind := r.Range(1, 3)
+		local := vgen.Pick(r, ias...)
+		pos := iaPos{vgen.Pick(r, ias...), vgen.Pick(r, ias...)}
+		if r.Chance(2, 3) {
+			if kind == 1 || (kind == 3 && r.Bool()) {
+				pos.dst = local
+			} else {
+				pos.src = local
+			}
+		}
+		me := vgen.Pick(r, hostPool...)
+		p := genPeer(r, me)
+		sh, dh := genHostString(r, me), genHostString(r, me)
+		proto := uint16(vgen.Pick(r, 0, 1, 1, 1, 2, 7, 200, 65535))
+		validateOne(kind, proto, pos, local, p, sh, dh)
+	}
+
+	// 3. allowed (host, protocol) sets
+	na := run.Count(200, 20000)
+	for i := 0; i < na; i++ {
+		r := rng.Fork(uint64(200000 + i))
+		me := vgen.Pick(r, hostPool...)
+		proto := drkey.Protocol(vgen.Pick(r, 0, 1, 1, 2, 7))
+		es := genAllowed(r, me, proto)
+		p := genPeer(r, me)
+		if p.Kind == 0 {
+			p.Kind = 1
+		}
+		if !run.Want() {
+			run.Skip()
+			continue
+		}
+		srv := &dkgrpc.Server{AllowedSVHostProto: allowedMap(es)}
+		err := srv.VerifValidateAllowedHost(proto, p.addr())
+		run.Tally(fmt.Sprintf("allowed:%v", err == nil))
+		run.Add("allowed", vgen.App("DRKeyACL.CAllowed", allowedTerm(es), vgen.N(uint64(proto)),
+			p.term(), vgen.B(err == nil)), fmt.Sprint(es, proto, p), p.Kind == 2 && len(es) > 0,
+			map[string]any{"allowed": fmt.Sprint(es), "proto": proto, "peer": p.String(),
+				"accepted": err == nil})
+	}
+
+	// 4. certificate outcomes
+	nc := run.Count(30, 400)
+	for i := 0; i < nc; i++ {
+		r := rng.Fork(uint64(300000 + i))
+		a := genAuth(r)
+		if !run.Want() {
+			run.Skip()
+			continue
+		}
+		srv := &dkgrpc.Server{ClientCertificateVerifier: subjectVerifier{}}
+		ia, err := srv.VerifValidateClientCertificate(&peer.Peer{AuthInfo: a.info()})
+		impl := "None"
+		if err == nil {
+			impl = vgen.Opt(vgen.N(uint64(ia)), true)
+		}
+		run.Tally(fmt.Sprintf("cert:kind%d-ok:%v", a.Kind, err == nil))
+		run.Add("cert", vgen.App("DRKeyACL.CCert", a.term(), impl), a.term(), a.Kind == 2,
+			map[string]any{"auth": a.term(), "ia": ia.String(), "ok": err == nil})
+	}
+
+	// 5. the Server methods
+	ns := run.Count(200, 15000)
+	for ep := 0; ep < 6; ep++ {
+		for i := 0; i < ns; i++ {
+			r := rng.Fork(uint64(1000000*(ep+1) + i))
+			local := vgen.Pick(r, ias...)
+			me := vgen.Pick(r, hostPool...)
+			other := vgen.Pick(r, ias...)
+			q := reqSpec{Proto: genProto(r), Src: other, Dst: local}
+			// a legitimate request for this endpoint ...
+			switch ep {
+			case 1:
+				if r.Bool() {
+					q.Src, q.Dst = local, other
+				}
+			case 3:
+				q.Src, q.Dst = local, other
+			case 4:
+				if r.Bool() {
+					q.Src, q.Dst = local, other
+				}
+			}
+			q.SrcHost = genHostString(r, me)
+			q.DstHost = genHostString(r, me)
+			p := genPeer(r, me)
+			a := genAuth(r)
+			es := genAllowed(r, me, drkey.Protocol(q.Proto))
+			// ... with occasional deviations
+			if r.Chance(1, 5) {
+				q.Src = vgen.Pick(r, ias...)
+			}
+			if r.Chance(1, 5) {
+				q.Dst = vgen.Pick(r, ias...)
+			}
+			if r.Chance(1, 10) {
+				q.TS = r.Range(1, 3)
+			}
+			if !run.Want() {
+				run.Skip()
+				continue
+			}
+			var c *callRec
+			var bad string
+			panicked, msg := vgen.Recover(func() { c, bad = serve(ep, local, es, p, a, q) })
+			desc := map[string]any{"endpoint": epNames[ep], "local": local.String(), "peer": p.String(),
+				"auth": a.term(), "allowed": fmt.Sprint(es), "proto": q.Proto, "ts": q.TS,
+				"src": q.Src.String(), "dst": q.Dst.String(), "src_host": q.SrcHost,
+				"dst_host": q.DstHost}
+			impl := "None"
+			if c != nil {
+				impl = vgen.Opt(c.term(), true)
+				desc["call"] = fmt.Sprintf("%+v", *c)
+			}
+			run.Tally(fmt.Sprintf("serve:%s-served:%v", epNames[ep], c != nil))
+			id := run.Add("serve", vgen.App("DRKeyACL.CServe", "DRKeyACL."+epNames[ep],
+				vgen.N(uint64(local)), allowedTerm(es), p.term(), a.term(), q.term(), impl),
+				fmt.Sprint(ep, local, es, p, a.term(), q), p.Kind == 2 && q.TS == 0, desc)
+			if panicked {
+				run.Violate(id, "panic: "+msg, desc)
+			} else if bad != "" {
+				run.Violate(id, bad, desc)
+			}
+		}
+	}
+	run.Finish()
 }
